@@ -74,6 +74,9 @@ func parseContractFile(path string) ([]*Contract, error) {
 		if strings.HasPrefix(t, "package ") && pkgName == "" {
 			pkgName = strings.TrimSpace(strings.TrimPrefix(t, "package "))
 		}
+		if strings.HasPrefix(t, "// @") {
+			t = "//@" + t[4:] // gofmt rewrites directive comments inside doc comments
+		}
 		if !strings.HasPrefix(t, "//@") {
 			if cur != nil && t != "" && !strings.HasPrefix(t, "//") {
 				cur, last = nil, nil
@@ -712,13 +715,13 @@ func (w *weaver) weave(c *Contract) {
 			var text string
 			switch cl.Kind {
 			case "invariant":
-				text = fmt.Sprintf("verifspec.Invariant(func(%s) bool { return %s }); ", loopParams[cl.Loop], expr)
+				text = fmt.Sprintf("verifspec.Invariant(func(%s) bool { return %s }, %q); ", loopParams[cl.Loop], expr, cl.Label)
 			case "rangeinv":
 				ps := "idx int"
 				if loopParams[cl.Loop] != "" {
 					ps += ", " + loopParams[cl.Loop]
 				}
-				text = fmt.Sprintf("verifspec.Invariant(func(%s) bool { return %s }); ", ps, expr)
+				text = fmt.Sprintf("verifspec.Invariant(func(%s) bool { return %s }, %q); ", ps, expr, cl.Label)
 			case "loopdec":
 				text = fmt.Sprintf("verifspec.Decreases(func(%s) int { return %s }); ", loopParams[cl.Loop], expr)
 			}
